@@ -42,6 +42,8 @@ def r1_merge(ctx):
             asg.setdefault(n.ast.targets[0].id, []).append(n)
     ctx.need("stops" in asg and "valid_start_mask" in asg, "merge_intervals: stops / valid_start_mask not found")
     ok = sym.same(asg["stops"][0].ast.value, f"np.maximum.accumulate({iv}.stop)")
+    if not ok and any("np.maximum.accumulate(" in u(n.ast.value) for n in asg["stops"]):
+        raise Unrecognised(f"{f.where}: the running maximum of the stops is computed in a form the checker cannot compare ({'; '.join(u(n.ast) for n in asg['stops'])})")
     ctx.ob(f.where, "running stop = cumulative maximum of the stops (nested intervals do not shorten a run)", ok, u(asg["stops"][0].ast.value), key="C08-R1|running-max")
     # padding
     adds = [n for n in g.stmt_nodes(ast.AugAssign) if u(n.ast.target) == "stops" and isinstance(n.ast.op, ast.Add)]
